@@ -107,6 +107,8 @@ def run(tier, seed):
                         pre += ' and f2 == 0 and v2 == 0'
                         if tier == 'thorough':
                             pre += ' and (warm == 0 or warm == %d)' % req
+                            if req not in (5, 6, 8):
+                                pre += ' and vd == -1'      # the package module matters only for the requests that reach it
                     elif tier == 'thorough':
                         pre += ' and vc <= 0 and (warm == 0 or warm == %d)' % req
                     if tier == 'quick':
